@@ -106,8 +106,9 @@ def mc_module(chk, name, prog, ext_menu=(), max_ext=1, max_cancel=0, dev=None, w
                 assert not any(x["op"] in ("fail", "wait", "collect") for x in body[:i]), \
                     "a send after an op that may end the body early is not modelled"
         P[s] = {"pre": pre, "body": body}
-    dev = dict({"match_done_waiters": True, "wait_index_one_based": True, "no_handlers_unvalidated": True,
-                "clock_mix": True}, **(dev or {}))
+    # the code as it is today: the fixed defects are off, the recorded ones (known findings) on
+    dev = dict({"match_done_waiters": False, "wait_index_one_based": True, "no_handlers_unvalidated": False,
+                "clock_mix": False}, **(dev or {}))
     d = chk.work / ("mc_" + name)
     d.mkdir(parents=True, exist_ok=True)
     for f in ("Reducer.tla", "Engine.tla", "EngineProps.tla"):
@@ -186,10 +187,11 @@ def mc_plans(chk, pid):
                 ("wild_fails", sc.handlers("wildcard", 1, handler_fails=True), ["Inv_C08"], [], {})],
         "C09": [("collect", sc.collector(2, ("A", "A"), 3), ["Inv_C09"], [], {"expect_violation": "Inv_C09"}),
                 ("collect_nw1", sc.collector(1, ("A", "A"), 4) if q else sc.collector(1, ("A", "A", "B"), 6), ["Inv_C09"], [], {})],
-        "C10": [("waiter_asis", sc.waiter2(7), ["Inv_C10", "Inv_C10_Timeout", "Inv_C10_WaiterEvent"], [],
-                 {"ext_menu": [("Resp", None)], "max_ext": 2, "expect_violation": "Inv_C10_WaiterEvent"}),
-                ("waiter_design", sc.waiter2(7), ["Inv_C10", "Inv_C10_Timeout", "Inv_C10_WaiterEvent"], [],
-                 {"ext_menu": [("Resp", None)], "max_ext": 3, "dev": {"match_done_waiters": False}}),
+        "C10": [("waiter_defect_variant", sc.waiter2(7), ["Inv_C10", "Inv_C10_Timeout", "Inv_C10_WaiterEvent"], [],
+                 {"ext_menu": [("Resp", None)], "max_ext": 2, "expect_violation": "Inv_C10_WaiterEvent",
+                  "dev": {"match_done_waiters": True}}),
+                ("waiter2", sc.waiter2(7), ["Inv_C10", "Inv_C10_Timeout", "Inv_C10_WaiterEvent"], [],
+                 {"ext_menu": [("Resp", None)], "max_ext": 3}),
                 ("waiter_reqs", sc.waiter(None, {"k": 1}), ["Inv_C10", "Inv_C10_Timeout"], [],
                  {"ext_menu": [("Resp", None), ("Resp1", None)], "max_ext": 2, "dev": {"match_done_waiters": False}})],
         "C03": [("fanout_delay", sc.fanout(2, 2, 2, 5, 1) if q else sc.fanout(2, 3, 2, 5, 1), ["Inv_C03a"], ["Act_C03b_AsCoded"], {}),
